@@ -15,7 +15,7 @@ VARIABLE l
 
 Verdicts(e) ==
   LET c == [e.c EXCEPT !.needed = e.truth.needed, !.possible = e.truth.possible, !.index_ok = e.truth.index_ok,
-                        !.inputs_ok = e.truth.inputs_ok]
+                        !.inputs_ok = e.truth.inputs_ok, !.iofail = e.truth.iofail]
   IN (IF e.status \in Admissible(c) THEN {}
       ELSE {IF e.status = 0 THEN "C20.zero_without_success"
             ELSE IF c.usage \notin {"none", "help"} THEN "C20.usage_error_not_3"
